@@ -531,10 +531,9 @@ class Worker:
         if not isinstance(future, RuntimeFuture):
             raise RuntimeError('Can only await on a BQSKit RuntimeFuture.')
 
-        if future.mailbox_id not in self._mailboxes:
+        box = self._mailboxes.get(future.mailbox_id)
+        if box is None:
             raise RuntimeError('Cannot await on a canceled task.')
-
-        box = self._mailboxes[future.mailbox_id]
 
         with self.mailbox_mutex:
             # Let the mailbox know this task is waiting
